@@ -5,8 +5,9 @@ package main
 //	family "ctl": the dialer control function itself (overlay accessors), as installed by NewClient
 //	              (newDestinationTripperDialer) and by NewDNSCache.
 //	family "e2e": a real fclient.Client with WithAllowDenyNetworks connects (or not) to a TLS listener
-//	              on the candidate 127.x.y.z address, reached as a literal, by name, or by name through
-//	              a DNSCache built with the same lists.
+//	              on the candidate 127.x.y.z / ::1 address; dial path (plain dialer | DNS-cache dialer) x name
+//	              kind (DNS name, IPv4 literal, bracketed IPv4-mapped literal, bracketed IPv6 literal); the DNS
+//	              cache is built with the same lists.
 
 import (
 	"context"
@@ -164,10 +165,16 @@ func netReplay(i int, seed int64, raw json.RawMessage) hx.Result {
 	var hits int32
 	onReq := func(sni, host string) bool { atomic.AddInt32(&hits, 1); return true }
 	// one listener per address of the name, all on one port
-	addrs, verdicts := []string{addr}, []string{r.Verdict}
+	// (an IPv4-mapped candidate is the IPv4 address: that is where the listener is)
+	addrs, verdicts := []string{octets(r.Addr[2:]).String()}, []string{r.Verdict}
 	for k, x := range r.Extra {
-		addrs, verdicts = append(addrs, addrText(x)), append(verdicts, r.XVerdict[k])
+		addrs, verdicts = append(addrs, octets(x[2:]).String()), append(verdicts, r.XVerdict[k])
 	}
+	path, kind, okReach := strings.Cut(r.Reach, ":")
+	if !okReach {
+		panic("unknown reach " + r.Reach)
+	}
+	v6 := r.Addr[0] == 6
 	var srvs []*tlsSrv
 	defer func() {
 		for _, s := range srvs {
@@ -201,26 +208,35 @@ func netReplay(i int, seed int64, raw json.RawMessage) hx.Result {
 	}
 	srv := srvs[0]
 	opts := []fclient.ClientOption{fclient.WithAllowDenyNetworks(allow, deny), fclient.WithSkipVerify(true), fclient.WithTimeout(reqTimeout)}
-	target := net.JoinHostPort(addr, strconv.Itoa(srv.port))
-	switch r.Reach {
-	case "literal":
-	case "name", "dnscache":
-		h := "h." + c.label + ".c16.test"
-		if (seed+int64(i))%2 == 0 { // order of the A records in the answer
-			c.z.setA(h, addrs...)
-		} else {
-			rev := []string{}
-			for k := len(addrs) - 1; k >= 0; k-- {
-				rev = append(rev, addrs[k])
+	var host string
+	switch kind {
+	case "v4", "v6":
+		host = addrs[0]
+	case "mapped": // written as an IPv6 literal, dialled as the IPv4 address it embeds
+		host = "::ffff:" + addrs[0]
+	case "name":
+		host = "h." + c.label + ".c16.test"
+		recs := append([]string{}, addrs...)
+		if (seed+int64(i))%2 != 0 { // order of the records in the answer
+			for a, b := 0, len(recs)-1; a < b; a, b = a+1, b-1 {
+				recs[a], recs[b] = recs[b], recs[a]
 			}
-			c.z.setA(h, rev...)
 		}
-		target = net.JoinHostPort(h, strconv.Itoa(srv.port))
-		if r.Reach == "dnscache" {
-			opts = append(opts, fclient.WithDNSCache(fclient.NewDNSCache(8, time.Minute, allow, deny)))
+		if v6 {
+			c.z.setAAAA(host, recs...)
+		} else {
+			c.z.setA(host, recs...)
 		}
 	default:
-		panic("unknown reach " + r.Reach)
+		panic("unknown name kind in " + r.Reach)
+	}
+	target := net.JoinHostPort(host, strconv.Itoa(srv.port)) // brackets an IPv6 literal
+	switch path {
+	case "plain":
+	case "dnscache":
+		opts = append(opts, fclient.WithDNSCache(fclient.NewDNSCache(8, time.Minute, allow, deny)))
+	default:
+		panic("unknown dial path in " + r.Reach)
 	}
 	hangKey := "C16/netpolicy/e2e/reach=" + r.Reach + "/request-hangs"
 	if tripped(hangKey) {
@@ -257,21 +273,23 @@ func netReplay(i int, seed int64, raw json.RawMessage) hx.Result {
 		want := verdicts[k] != "refuse" // "permit", or "open" when nothing is configured
 		anyWanted, allWanted, anyConnected = anyWanted || want, allWanted && want, anyConnected || n > 0
 		if n > 0 && !want {
-			return hx.Result{OK: false, Key: fmt.Sprintf("C16/netpolicy/e2e/model=%s,code=permit/%s", verdicts[k], class),
-				What: fmt.Sprintf("Client with WithAllowDenyNetworks, %s, destination reached as %s (%s, A records %v): model says %s for %s; %d TCP connection(s) were made to it, request error: %v",
+			return hx.Result{OK: false, Key: fmt.Sprintf("C16/netpolicy/e2e/reach=%s/model=%s,code=permit/%s", r.Reach, verdicts[k], class),
+				What: fmt.Sprintf("Client with WithAllowDenyNetworks, %s, destination reached as %s (%s, addresses %v): model says %s for %s; %d TCP connection(s) were made to it, request error: %v",
 					where, r.Reach, target, addrs, verdicts[k], addrs[k], n, rerr),
 				Want: verdicts[k], Got: "permit"}
 		}
 	}
 	// and the request goes through if every address is permitted (with a mix of permitted and refused addresses the
 	// property does not say whether the permitted one has to be found)
-	if len(srvs) == 1 && anyWanted && !anyConnected {
-		return hx.Result{OK: false, Key: fmt.Sprintf("C16/netpolicy/e2e/model=%s,code=refuse/%s", r.Verdict, class),
+	// (not demanded of the DNS-cache dialer for IPv6 addresses: the property is about where connections may go,
+	// and that dialer cannot reach any IPv6 address - it joins host and port without brackets)
+	if len(srvs) == 1 && anyWanted && !anyConnected && !(path == "dnscache" && v6) {
+		return hx.Result{OK: false, Key: fmt.Sprintf("C16/netpolicy/e2e/reach=%s/model=%s,code=refuse/%s", r.Reach, r.Verdict, class),
 			What: fmt.Sprintf("Client with WithAllowDenyNetworks, %s, destination reached as %s (%s): model says %s; no TCP connection was made, request error: %v",
 				where, r.Reach, target, r.Verdict, rerr),
 			Want: r.Verdict, Got: "refuse"}
 	}
-	if allWanted && (rerr != nil || status != 200 || atomic.LoadInt32(&hits) == 0) {
+	if allWanted && !(path == "dnscache" && v6) && (rerr != nil || status != 200 || atomic.LoadInt32(&hits) == 0) {
 		return hx.Result{OK: false, Key: "C16/netpolicy/e2e/permitted-request-failed",
 			What: fmt.Sprintf("permitted request did not complete (%s via %s, A records %v): status %d err %v", where, r.Reach, addrs, status, rerr)}
 	}
